@@ -61,20 +61,29 @@ theorem step_real (ncv : Int) (ritz : Int → α × α) (i : Int) (h : is_comple
     genShiftSkel_step ncv ritz i = ([i], false, i + 1) := by
   simp [genShiftSkel_step, h]
 
-theorem step_pair (ncv : Int) (ritz : Int → α × α) (i : Int) (h : is_complex (ritz i) = true) (h2 : is_conj (ritz i) (ritz (i + 1)) = true) :
+theorem step_pair (ncv : Int) (ritz : Int → α × α) (i : Int) (h : is_complex (ritz i) = true) (hlt : i + 1 < ncv)
+    (h2 : is_conj (ritz i) (ritz (i + 1)) = true) :
     genShiftSkel_step ncv ritz i = ([i, i, i + 1], true, i + 2) := by
-  simp [genShiftSkel_step, h, h2]; omega
+  simp [genShiftSkel_step, h, h2, hlt]; omega
 
-theorem step_orphan (ncv : Int) (ritz : Int → α × α) (i : Int) (h : is_complex (ritz i) = true) (h2 : is_conj (ritz i) (ritz (i + 1)) = false) :
+theorem step_orphan (ncv : Int) (ritz : Int → α × α) (i : Int) (h : is_complex (ritz i) = true) (hlt : i + 1 < ncv)
+    (h2 : is_conj (ritz i) (ritz (i + 1)) = false) :
     genShiftSkel_step ncv ritz i = ([i, i, i + 1], false, i + 1) := by
-  simp [genShiftSkel_step, h, h2]
+  simp [genShiftSkel_step, h, h2, hlt]
+
+/-- a complex value at the last position: the bounds guard stops the conjugate test, single shift, no read of index ncv -/
+theorem step_last (ncv : Int) (ritz : Int → α × α) (i : Int) (h : is_complex (ritz i) = true) (hge : ¬ (i + 1 < ncv)) :
+    genShiftSkel_step ncv ritz i = ([i], false, i + 1) := by
+  simp [genShiftSkel_step, h, hge]
 
 theorem genStep_next (ncv : Int) (ritz : Int → α × α) (i : Int) : i < (genShiftSkel_step ncv ritz i).2.2 := by
   cases h : is_complex (ritz i)
   · rw [step_real ncv ritz i h]; show i < i + 1; omega
-  · cases h2 : is_conj (ritz i) (ritz (i + 1))
-    · rw [step_orphan ncv ritz i h h2]; show i < i + 1; omega
-    · rw [step_pair ncv ritz i h h2]; show i < i + 2; omega
+  · by_cases hg : i + 1 < ncv
+    · cases h2 : is_conj (ritz i) (ritz (i + 1))
+      · rw [step_orphan ncv ritz i h hg h2]; show i < i + 1; omega
+      · rw [step_pair ncv ritz i h hg h2]; show i < i + 2; omega
+    · rw [step_last ncv ritz i h hg]; show i < i + 1; omega
 
 theorem genPasses_ge (ritz : Int → α × α) (hi i : Int) (h : hi ≤ i) : genPasses ritz hi i = [] := by
   rw [genPasses]; simp; omega
@@ -126,16 +135,19 @@ theorem shift_iff_aux (ritz : Int → α × α) (ncv : Int) (n : Nat) :
         constructor
         · rintro ⟨a, b⟩; exact ⟨⟨⟨hi, hlt⟩, a⟩, b⟩
         · rintro ⟨⟨_, a⟩, b⟩; exact ⟨a, b⟩
-      · cases h2 : is_conj (ritz i) (ritz (i + 1))
-        · rw [step_orphan ncv ritz i h h2]
-          simp
-        · rw [step_pair ncv ritz i h h2]
-          have := ih (ncv - (i + 2)).toNat (by omega) (i + 2) rfl (by omega)
-          simp only [if_true, true_and, imp_self, List.mem_cons, List.not_mem_nil, or_false, forall_eq_or_imp, forall_eq]
-          rw [this]
-          constructor
-          · rintro ⟨a, b, c⟩; exact ⟨⟨⟨⟨hi, hlt⟩, ⟨hi, hlt⟩, by omega, a⟩, b⟩, c⟩
-          · rintro ⟨⟨⟨_, _, _, a⟩, b⟩, c⟩; exact ⟨a, b, c⟩
+      · by_cases hg : i + 1 < ncv
+        · cases h2 : is_conj (ritz i) (ritz (i + 1))
+          · rw [step_orphan ncv ritz i h hg h2]
+            simp
+          · rw [step_pair ncv ritz i h hg h2]
+            have := ih (ncv - (i + 2)).toNat (by omega) (i + 2) rfl (by omega)
+            simp only [if_true, true_and, imp_self, List.mem_cons, List.not_mem_nil, or_false, forall_eq_or_imp, forall_eq]
+            rw [this]
+            constructor
+            · rintro ⟨a, b, c⟩; exact ⟨⟨⟨⟨hi, hlt⟩, ⟨hi, hlt⟩, by omega, a⟩, b⟩, c⟩
+            · rintro ⟨⟨⟨_, _, _, a⟩, b⟩, c⟩; exact ⟨a, b, c⟩
+        · rw [step_last ncv ritz i h hg]
+          simp [hg]
     · rw [genPasses_ge ritz ncv i (by omega)]
       exact ⟨fun _ => ⟨inBounds_nil ncv, by simp [AllPaired]⟩, fun _ => adj_ge ritz ncv i (by omega)⟩
 
@@ -158,41 +170,28 @@ theorem passes_range (ritz : Int → α × α) (ncv i : Int) : ∀ p ∈ genPass
       p.reads = (genShiftSkel_step ncv ritz p.i).1 ∧ p.double = (genShiftSkel_step ncv ritz p.i).2.1 :=
   passes_range_aux ritz ncv _ i rfl
 
-/-- the reads of one pass are in bounds iff a complex value is not met at the last position -/
+/-- with the bounds guard the reads of one pass are ALWAYS in bounds -/
 theorem step_reads_ok (ritz : Int → α × α) (ncv j : Int) (h0 : 0 ≤ j) (h1 : j < ncv) :
-    (∀ r ∈ (genShiftSkel_step ncv ritz j).1, 0 ≤ r ∧ r < ncv) ↔ (is_complex (ritz j) = true → j + 1 < ncv) := by
+    ∀ r ∈ (genShiftSkel_step ncv ritz j).1, 0 ≤ r ∧ r < ncv := by
   cases h : is_complex (ritz j)
   · rw [step_real ncv ritz j h]; simp; omega
-  · cases h2 : is_conj (ritz j) (ritz (j + 1))
-    · rw [step_orphan ncv ritz j h h2]; simp; omega
-    · rw [step_pair ncv ritz j h h2]; simp; omega
+  · by_cases hg : j + 1 < ncv
+    · cases h2 : is_conj (ritz j) (ritz (j + 1))
+      · rw [step_orphan ncv ritz j h hg h2]; simp; omega
+      · rw [step_pair ncv ritz j h hg h2]; simp; omega
+    · rw [step_last ncv ritz j h hg]; simp; omega
 
 theorem allReads_mem (ps : List Pass) (r : Int) : r ∈ allReads ps ↔ ∃ p ∈ ps, r ∈ p.reads := by
   simp [allReads]
 
-/-- EXACT characterisation of the out-of-range read: it happens iff the loop arrives at the last index `ncv-1` (i.e. does not hop
-    over it with a double shift from `ncv-2`) and the last Ritz value is complex; the index read is then `ncv` -/
-theorem inBounds_iff (ritz : Int → α × α) (ncv i : Int) (hi : 0 ≤ i) :
-    InBounds ncv (genPasses ritz ncv i) ↔ ∀ p ∈ genPasses ritz ncv i, p.i = ncv - 1 → is_complex (ritz (ncv - 1)) = false := by
-  constructor
-  · intro h p hp he
-    have hr := passes_range ritz ncv i p hp
-    have : ∀ r ∈ (genShiftSkel_step ncv ritz p.i).1, 0 ≤ r ∧ r < ncv := by
-      intro r hr'; apply h r; rw [allReads_mem]; exact ⟨p, hp, by rw [hr.2.2.1]; exact hr'⟩
-    have h2 := (step_reads_ok ritz ncv p.i (by omega) hr.2.1).mp this
-    cases hc : is_complex (ritz (ncv - 1))
-    · rfl
-    · rw [← he] at hc; have := h2 hc; omega
-  · intro h r hr
-    rw [allReads_mem] at hr
-    obtain ⟨p, hp, hpr⟩ := hr
-    have hrg := passes_range ritz ncv i p hp
-    rw [hrg.2.2.1] at hpr
-    refine (step_reads_ok ritz ncv p.i (by omega) hrg.2.1).mpr ?_ r hpr
-    intro hc
-    by_cases he : p.i = ncv - 1
-    · have := h p hp he; rw [← he] at this; rw [this] at hc; exact absurd hc (by simp)
-    · omega
+/-- with the bounds guard EVERY Ritz read of the shift loop is inside [0, ncv), for every Ritz data -/
+theorem inBounds_always (ritz : Int → α × α) (ncv i : Int) (hi : 0 ≤ i) : InBounds ncv (genPasses ritz ncv i) := by
+  intro r hr
+  rw [allReads_mem] at hr
+  obtain ⟨p, hp, hpr⟩ := hr
+  have hrg := passes_range ritz ncv i p hp
+  rw [hrg.2.2.1] at hpr
+  exact step_reads_ok ritz ncv p.i (by omega) hrg.2.1 r hpr
 
 theorem inbounds_degree_aux (ritz : Int → α × α) (ncv : Int) (n : Nat) :
     ∀ i : Int, (ncv - i).toNat = n → 0 ≤ i → i ≤ ncv → InBounds ncv (genPasses ritz ncv i) →
@@ -207,14 +206,17 @@ theorem inbounds_degree_aux (ritz : Int → α × α) (ncv : Int) (n : Nat) :
       · rw [step_real ncv ritz i h] at hb ⊢
         have := ih (ncv - (i + 1)).toNat (by omega) (i + 1) rfl (by omega) (by omega) hb.2
         simp only [Bool.false_eq_true, if_false]; omega
-      · cases h2 : is_conj (ritz i) (ritz (i + 1))
-        · rw [step_orphan ncv ritz i h h2] at hb ⊢
+      · by_cases hg : i + 1 < ncv
+        · cases h2 : is_conj (ritz i) (ritz (i + 1))
+          · rw [step_orphan ncv ritz i h hg h2] at hb ⊢
+            have := ih (ncv - (i + 1)).toNat (by omega) (i + 1) rfl (by omega) (by omega) hb.2
+            simp only [Bool.false_eq_true, if_false]; omega
+          · rw [step_pair ncv ritz i h hg h2] at hb ⊢
+            have := ih (ncv - (i + 2)).toNat (by omega) (i + 2) rfl (by omega) (by omega) hb.2
+            simp only [if_true]; omega
+        · rw [step_last ncv ritz i h hg] at hb ⊢
           have := ih (ncv - (i + 1)).toNat (by omega) (i + 1) rfl (by omega) (by omega) hb.2
           simp only [Bool.false_eq_true, if_false]; omega
-        · rw [step_pair ncv ritz i h h2] at hb ⊢
-          have h3 := hb.1 (i + 1) (by simp)
-          have := ih (ncv - (i + 2)).toNat (by omega) (i + 2) rfl (by omega) (by omega) hb.2
-          simp only [if_true]; omega
     · rw [genPasses_ge ritz ncv i (by omega)]; simp [degree]; omega
 
 /-- an AdjacentConj sequence seen from a later position j: either j is again a block boundary, or j is the second member of a pair -/
